@@ -449,6 +449,7 @@ def transform_key(law, which, t, err):
 
 def check_transform_values(ctx, dist, law, which, ts, budget, subs=None):
     """which in cf/mgf: value at the rational points ts against the defining integral / sum"""
+    import sympy
     for t in ts:
         if which == "mgf" and not laws.mgf_exists(law, t):
             continue
@@ -457,7 +458,10 @@ def check_transform_values(ctx, dist, law, which, ts, budget, subs=None):
                 e = getattr(dist, which)(polar_t(t))
                 ctx.ev(which)
                 if subs:
-                    e = to_sympy(e).subs(subs)
+                    e = to_sympy(e)
+                    if e.has(sympy.Float):  # see compare_moment
+                        e = sympy.nsimplify(e, rational=True)
+                    e = e.subs(subs)
                 shown = str(e)[:100]
                 try:
                     pv = to_value(e)
